@@ -144,7 +144,7 @@ H_HIST = Harness(
         "quick": {"ranges": {"n": (0, 2), "dkw": (0, 1), "sh1": (0, 3)}, "fixed": {"sh2": 0, "sh3": 0, "sh4": 0, "docall": 1},
                   "partition": ["kind", "dshape", "n"], "timeout": 300,
                   "twin_fixed": {"kind": 1, "dshape": 4}},
-        "thorough": {"ranges": {"n": (0, 4)}, "fixed": {"sh4": 0}, "partition": ["kind", "dshape", "dkw", "n"], "timeout": 1500,
+        "thorough": {"ranges": {"n": (0, 3)}, "fixed": {"sh3": 0, "sh4": 0, "docall": 1}, "partition": ["kind", "dshape", "dkw", "n"], "timeout": 1500,
                      "twin_fixed": {"kind": 1, "dshape": 4, "dkw": 1, "n": 2}},
     },
     functions=_FUNCS,
